@@ -31,6 +31,10 @@ type Config struct {
 	// MapCap > 0: the manager writes its allocations into a real kernel hash map (subscriber_nat) that holds only
 	// MapCap entries, so the datapath update of a further subscriber fails until another one is released
 	MapCap int
+	// LateIPs > 0: the public addresses 1..LateIPs (the ones that sort FIRST) are not configured at
+	// construction; an "addip" event adds address sub while blocks may already be held on the others
+	// (an operator growing the pool of a running gateway)
+	LateIPs int
 }
 
 func (c Config) Name() string {
@@ -41,12 +45,15 @@ func (c Config) Name() string {
 	if c.MapCap > 0 {
 		n += fmt.Sprintf("/map%d", c.MapCap)
 	}
+	if c.LateIPs > 0 {
+		n += fmt.Sprintf("/late%d", c.LateIPs)
+	}
 	return n
 }
 
 func (c Config) Map() map[string]any {
 	return map[string]any{"impl": "nat.Manager", "nsubs": c.NSubs, "nips": c.NIPs, "pstart": c.PStart, "pend": c.PEnd,
-		"pps": c.PPS, "logmode": c.LogMode, "byrange": c.ByRange, "mapcap": c.MapCap}
+		"pps": c.PPS, "logmode": c.LogMode, "byrange": c.ByRange, "mapcap": c.MapCap, "lateips": c.LateIPs}
 }
 
 // ConfigFromMap rebuilds a Config from the cfg record of a bundle / replay file.
@@ -56,7 +63,7 @@ func ConfigFromMap(m map[string]any) Config {
 		s = "bulk"
 	}
 	return Config{PStart: toInt(m["pstart"]), PEnd: toInt(m["pend"]), PPS: toInt(m["pps"]), NIPs: toInt(m["nips"]),
-		NSubs: toInt(m["nsubs"]), LogMode: s, ByRange: m["byrange"] == true, MapCap: toInt(m["mapcap"])}
+		NSubs: toInt(m["nsubs"]), LogMode: s, ByRange: m["byrange"] == true, MapCap: toInt(m["mapcap"]), LateIPs: toInt(m["lateips"])}
 }
 
 func toInt(v any) int {
@@ -107,6 +114,9 @@ func (s *System) Events() []core.Event {
 	var evs []core.Event
 	for sub := 1; sub <= s.C.NSubs; sub++ {
 		evs = append(evs, core.Event{"op": "alloc", "sub": sub}, core.Event{"op": "release", "sub": sub})
+	}
+	for i := s.C.LateIPs; i >= 1; i-- {
+		evs = append(evs, core.Event{"op": "addip", "sub": i})
 	}
 	return evs
 }
@@ -181,6 +191,7 @@ type inst struct {
 	flushDone chan struct{}
 	stalled   bool
 	kmap      *ebpf.Map
+	added     map[int]bool // late public addresses already configured
 }
 
 func (s *System) New() core.Instance {
@@ -195,7 +206,7 @@ func (s *System) New() core.Instance {
 			panic(err)
 		}
 	} else {
-		for i := 1; i <= c.NIPs; i++ {
+		for i := c.LateIPs + 1; i <= c.NIPs; i++ {
 			if err := m.AddPublicIP(pubIP(i)); err != nil {
 				panic(err)
 			}
@@ -250,6 +261,16 @@ func (in *inst) do(op string, sub int) *callResult {
 		return &callResult{ok: true, blk: in.block(a)}
 	case "release":
 		err := in.m.DeallocateNAT(privIP(sub))
+		return &callResult{ok: err == nil, blk: noBlock(), err: errStr(err)}
+	case "addip": // the operator configures one more public address (each address once)
+		if sub < 1 || sub > in.s.C.LateIPs || in.added[sub] {
+			return &callResult{ok: false, blk: noBlock(), err: "not a late address / already configured"}
+		}
+		if in.added == nil {
+			in.added = map[int]bool{}
+		}
+		in.added[sub] = true
+		err := in.m.AddPublicIP(pubIP(sub))
 		return &callResult{ok: err == nil, blk: noBlock(), err: errStr(err)}
 	}
 	panic("unknown op " + op)
